@@ -8,6 +8,10 @@
  *      grow = times the optimiser's result holder took a dictionary LARGER than the one it held (its buffer had to grow), cands = candidates it took.
  * Stale memory: the two runs of a single-threaded operation get destinations pre-filled with different bytes and (zvh_train_fill.h) every fresh malloc block of
  * cover.c / fastcover.c / zdict.c filled with a different byte, so a byte of the result that the trainer never wrote shows as det=DIFF.
+ *   <shrink> is <shrinkDict>[r<shrinkDictMaxRegression>] (regression 1 when not given).  Sample kind rep = every sample is a copy of one template of <sampleSize> random bytes
+ *   (a corpus much smaller than the capacity whose selected content is all useful: a dictionary missing part of it compresses the samples far worse).
+ *   Variant msan (MemorySanitizer, -DZVT_NO_FILL): fresh blocks and the destination are left unwritten and the operation runs once; any use of a byte nobody wrote - inside the
+ *   trainer or in the returned dictionary when this harness loads / compares / prints it - ends the process with a report.
  * Excluded shape (reported, see EXCLUDED below): res=excluded:<name>.
  *   epochs <maxDictSize> <nbDmers >= 1> <k >= 1> <passes>          -> <num> <size>     (COVER_computeEpochs, vs Train.computeEpochs)
  *   ctx <fast|cover> <d> <split%> <f> <kind>:<nb>:<size>:<seed>     -> ctx res=<ok|err:CLASS|excluded> n=<d-mer count> total=<bytes> train=<bytes of the training part> nbTrain=<n> nbTest=<n>
@@ -39,8 +43,18 @@ int zvt_is_dispatcher(void) { return pthread_equal(pthread_self(), g_main); }
 void zvt_perturb(void) { if (g_perturb) { struct timespec ts; if (!t_rng) t_rng = (unsigned)(size_t)pthread_self() * 2654435761u + 12345u; t_rng = t_rng * 1103515245u + 12345u; ts.tv_sec = 0; ts.tv_nsec = (long)((t_rng >> 16) & 1023) * 1000; if ((t_rng >> 27) & 1) nanosleep(&ts, NULL); } }
 
 unsigned char zvt_fill_byte = 0x11; size_t zvt_grow, zvt_cands;
+#ifdef ZVT_NO_FILL
+#define ZVT_UNFILLED 1   /* no second run either: the determinism pair belongs to the filled builds */
+#else
+#define ZVT_UNFILLED 0
+#endif
+#ifdef ZVT_NO_FILL   /* MemorySanitizer build (variant msan): fresh blocks and the destination stay UNWRITTEN, so that any use of a byte the trainer never wrote is a report */
+void* zvt_fill_malloc(size_t n) { return malloc(n); }
+static void prefill(unsigned char* p, size_t n, unsigned a, unsigned m) { (void)p; (void)n; (void)a; (void)m; }
+#else
 void* zvt_fill_malloc(size_t n) { void* p = malloc(n); if (p && n) memset(p, zvt_fill_byte, n); return p; }
 static void prefill(unsigned char* p, size_t n, unsigned a, unsigned m) { size_t i; for (i = 0; i < n; i++) p[i] = (unsigned char)(a + i * m); }
+#endif
 static unsigned long long rs;
 static unsigned rnd(void) { rs = rs * 6364136223846793005ULL + 1442695040888963407ULL; return (unsigned)(rs >> 33); }
 static void gen_samples(const char* kind, unsigned nb, size_t ssz, unsigned long long seed, unsigned char** buf, size_t** sizes, size_t* total) {
@@ -49,17 +63,19 @@ static void gen_samples(const char* kind, unsigned nb, size_t ssz, unsigned long
     unsigned H = 0, B = 0, P = nb + 16; int const isZero = !strncmp(kind, "zero", 4), isLead = !strncmp(kind, "lead", 4), isPool = isZero || !strcmp(kind, "pool"); unsigned char* pool = NULL;
     unsigned segL = 0, segS = 0, segR = 0; int const isSeg = !strncmp(kind, "seg", 3) && sscanf(kind + 3, "%us%ur%u", &segL, &segS, &segR) == 3 && segL && segR;
     rs = seed;
+    if (ZVT_UNFILLED && b) memset(b, 0xBE, cap);   /* the off<D> kinds with D < 48 copy a few bytes from beyond the samples written so far: this scratch block counts as written */
     if (isZero) { unsigned pp = 0; sscanf(kind + 4, "%up%u", &H, &pp); if (pp) P = pp; }
     if (isLead) { sscanf(kind + 4, "%ux%u", &H, &B); if (B > 2 * ssz) B = (unsigned)(2 * ssz); }
     if (isPool) { size_t q; pool = (unsigned char*)malloc((size_t)P * 64); for (q = 0; q < (size_t)P * 64; q++) pool[q] = (unsigned char)rnd(); }
     for (i = 0; i < nb; i++) { size_t n = ssz, j = 0;
         if (!strcmp(kind, "empty")) n = 0; else if (!strcmp(kind, "small")) n = rnd() % 8; else if (!strcmp(kind, "mixed")) n = (rnd() % 5 == 0) ? 0 : (rnd() % 4 == 0 ? rnd() % 9 : 1 + rnd() % (unsigned)(2 * ssz + 1));
         else if (isSeg) n = ssz;
-        else if (strcmp(kind, "same")) n = ssz / 2 + rnd() % (unsigned)(ssz + 1);
+        else if (strcmp(kind, "same") && strcmp(kind, "rep")) n = ssz / 2 + rnd() % (unsigned)(ssz + 1);
         if (i < H) n = isLead ? B : ssz;
         if (isZero && i < H) memset(b + pos, 0, n);
         else if (isSeg) { }                                                   /* filled below, across the sample borders */
         else if (isPool) { while (j < n) { size_t l = 64; if (l > n - j) l = n - j; memcpy(b + pos + j, pool + (size_t)(rnd() % P) * 64, l); j += l; } }
+        else if (!strcmp(kind, "rep")) { n = ssz; if (i == 0) { for (j = 0; j < n; j++) b[pos + j] = (unsigned char)rnd(); } else memcpy(b + pos, b, n); }
         else if (!strcmp(kind, "same")) { if (i == 0) { while (j < n) { const char* w = words[rnd() % 16]; size_t l = strlen(w); if (l > n - j) l = n - j; memcpy(b + pos + j, w, l); j += l; } } else memcpy(b + pos, b, n); }
         else if (!strcmp(kind, "tiny")) { for (j = 0; j < n; j++) b[pos + j] = (unsigned char)("ab"[rnd() & 1]); }
         else if (!strcmp(kind, "bin") || !strncmp(kind, "off", 3)) { for (j = 0; j < n; j++) b[pos + j] = (unsigned char)rnd(); }
@@ -80,12 +96,12 @@ static void gen_samples(const char* kind, unsigned nb, size_t ssz, unsigned long
 static void on_alarm(int sg) { (void)sg; { static const char m[] = "res=HANG\n"; if (write(1, m, sizeof m - 1) < 0) {} } _exit(3); }
 
 static size_t run_algo(const char* algo, void* dict, size_t cap, const unsigned char* sb, const size_t* ss, unsigned nb, size_t total,
-                       unsigned k, unsigned d, unsigned f, unsigned accel, unsigned steps, double split, unsigned shrink, unsigned threads, unsigned dictID, int level, unsigned long long* contentHash) {
+                       unsigned k, unsigned d, unsigned f, unsigned accel, unsigned steps, double split, unsigned shrink, unsigned regression, unsigned threads, unsigned dictID, int level, unsigned long long* contentHash) {
     ZDICT_params_t zp; memset(&zp, 0, sizeof zp); zp.dictID = dictID; zp.compressionLevel = level; *contentHash = 0;
     if (!strcmp(algo, "def")) return ZDICT_trainFromBuffer(dict, cap, sb, ss, nb);
-    if (!strcmp(algo, "cover") || !strcmp(algo, "optcover")) { ZDICT_cover_params_t p; memset(&p, 0, sizeof p); p.k = k; p.d = d; p.steps = steps; p.nbThreads = threads; p.splitPoint = split; p.shrinkDict = shrink; p.shrinkDictMaxRegression = 1; p.zParams = zp;
+    if (!strcmp(algo, "cover") || !strcmp(algo, "optcover")) { ZDICT_cover_params_t p; memset(&p, 0, sizeof p); p.k = k; p.d = d; p.steps = steps; p.nbThreads = threads; p.splitPoint = split; p.shrinkDict = shrink; p.shrinkDictMaxRegression = regression; p.zParams = zp;
         return !strcmp(algo, "cover") ? ZDICT_trainFromBuffer_cover(dict, cap, sb, ss, nb, p) : ZDICT_optimizeTrainFromBuffer_cover(dict, cap, sb, ss, nb, &p); }
-    if (!strcmp(algo, "fastcover") || !strcmp(algo, "optfast")) { ZDICT_fastCover_params_t p; memset(&p, 0, sizeof p); p.k = k; p.d = d; p.f = f; p.accel = accel; p.steps = steps; p.nbThreads = threads; p.splitPoint = split; p.shrinkDict = shrink; p.shrinkDictMaxRegression = 1; p.zParams = zp;
+    if (!strcmp(algo, "fastcover") || !strcmp(algo, "optfast")) { ZDICT_fastCover_params_t p; memset(&p, 0, sizeof p); p.k = k; p.d = d; p.f = f; p.accel = accel; p.steps = steps; p.nbThreads = threads; p.splitPoint = split; p.shrinkDict = shrink; p.shrinkDictMaxRegression = regression; p.zParams = zp;
         return !strcmp(algo, "fastcover") ? ZDICT_trainFromBuffer_fastCover(dict, cap, sb, ss, nb, p) : ZDICT_optimizeTrainFromBuffer_fastCover(dict, cap, sb, ss, nb, &p); }
     if (!strcmp(algo, "legacy")) { ZDICT_legacy_params_t p; memset(&p, 0, sizeof p); p.selectivityLevel = k % 12; p.zParams = zp; return ZDICT_trainFromBuffer_legacy(dict, cap, sb, ss, nb, p); }
     if (!strcmp(algo, "finalize")) { size_t cn = total < (size_t)k ? total : (size_t)k; *contentHash = XXH64(sb + (total - cn), cn, 0); return ZDICT_finalizeDictionary(dict, cap, sb + (total - cn), cn, sb, ss, nb, zp); }
@@ -128,7 +144,7 @@ int main(void) {
         char* op = strtok(line, " "); if (!op) continue;
         if (!strcmp(op, "train")) {
             char* algo = strtok(NULL, " "); size_t cap = (size_t)strtoull(strtok(NULL, " "), NULL, 10); unsigned k = (unsigned)atoi(strtok(NULL, " ")), d = (unsigned)atoi(strtok(NULL, " ")), f = (unsigned)atoi(strtok(NULL, " ")), accel = (unsigned)atoi(strtok(NULL, " ")), steps = (unsigned)atoi(strtok(NULL, " "));
-            double split = atoi(strtok(NULL, " ")) / 100.0; unsigned shrink = (unsigned)atoi(strtok(NULL, " ")), threads = (unsigned)atoi(strtok(NULL, " ")), dictID = (unsigned)strtoul(strtok(NULL, " "), NULL, 10); int level = atoi(strtok(NULL, " "));
+            double split = atoi(strtok(NULL, " ")) / 100.0; char* const shrinkSpec = strtok(NULL, " "); unsigned shrink = (unsigned)atoi(shrinkSpec), regression = strchr(shrinkSpec, 'r') ? (unsigned)strtoul(strchr(shrinkSpec, 'r') + 1, NULL, 10) : 1, threads = (unsigned)atoi(strtok(NULL, " ")), dictID = (unsigned)strtoul(strtok(NULL, " "), NULL, 10); int level = atoi(strtok(NULL, " "));
             char* spec = strtok(NULL, " "); char kind[16]; unsigned nb; size_t ssz; unsigned long long seed; unsigned char* sb; size_t* ss; size_t total; unsigned char* dict; unsigned char* dict2; size_t r, r2 = 0; unsigned long long ch = 0, ch2;
             const char* det = "na"; char evcopy[1 << 16]; size_t grow, cands, tblPos, tblEntries;
             g_perturb = atoi(strtok(NULL, " ")); t_rng = (unsigned)strtoul(strtok(NULL, " "), NULL, 10) | 1u;
@@ -139,10 +155,10 @@ int main(void) {
             if (excluded_shape(algo, split, k, d, f, accel, cap, nb, ss, total)) { printf("res=excluded:%s\n", excluded_shape(algo, split, k, d, f, accel, cap, nb, ss, total)); fflush(stdout); free(sb); free(ss); free(dict); free(dict2); continue; }
             zvt_watch_legacy = !strcmp(algo, "legacy"); zvt_watch_nb = nb; zvt_watch_cap = cap; zvt_tbl_pos = 0; zvt_tbl_entries = 0;
             alarm(240);
-            r = run_algo(algo, dict, cap, sb, ss, nb, total, k, d, f, accel, steps, split, shrink, threads, dictID, level, &ch);
+            r = run_algo(algo, dict, cap, sb, ss, nb, total, k, d, f, accel, steps, split, shrink, regression, threads, dictID, level, &ch);
             memcpy(evcopy, g_ev, g_evlen + 1);
             grow = zvt_grow; cands = zvt_cands; tblPos = zvt_tbl_pos; tblEntries = zvt_tbl_entries;
-            if (threads <= 1) { void* shift = malloc(1000 + (size_t)(seed % 5000)); zvt_fill_byte = 0xEE; r2 = run_algo(algo, dict2, cap, sb, ss, nb, total, k, d, f, accel, steps, split, shrink, threads, dictID, level, &ch2); free(shift);
+            if (threads <= 1 && !ZVT_UNFILLED) { void* shift = malloc(1000 + (size_t)(seed % 5000)); zvt_fill_byte = 0xEE; r2 = run_algo(algo, dict2, cap, sb, ss, nb, total, k, d, f, accel, steps, split, shrink, regression, threads, dictID, level, &ch2); free(shift);
                 det = (ZDICT_isError(r) && ZDICT_isError(r2)) || (r == r2 && (ZDICT_isError(r) || !memcmp(dict, dict2, r))) ? "same" : "DIFF"; }
             alarm(0);
             if (ZDICT_isError(r)) printf("res=err:%s loadC=- loadD=- ids=0,0,0,0 hsize=0 rt=0/0 det=%s content=0 ev=%s dict=-\n", zv_errclass(r), det, evcopy[0] ? evcopy : "-");
